@@ -147,6 +147,12 @@ func RejectClass(err error) string {
 	if err == nil {
 		return ""
 	}
+	if strings.Contains(err.Error(), "const initializer ") && strings.Contains(err.Error(), " is not a constant") {
+		// in a valid Go program every const initializer is constant: the compiler resolved a name in
+		// it to something else (known root cause: lazily loaded package-level declarations see the
+		// locals of the function being compiled)
+		return "cl-rejects:const-initializer-not-constant"
+	}
 	m := goConstantPanic.FindStringSubmatch(err.Error())
 	if m == nil {
 		return "cl-rejects"
